@@ -48,12 +48,13 @@ fn patch(bytes: &[u8], from: &str, to: &str) -> Result<(Vec<u8>, bool), String> 
     Ok((out.into_inner(), replaced))
 }
 
-pub fn xlsx_section(or: &mut Oracle, dist: &mut BTreeMap<String, u64>, fails: &mut Vec<Value>, nontrivial: &mut u64, tmp: &str) -> Value {
+/// `cases`: (input line, observation) pairs for the model tie of the import conversion: what the patched cell holds right after load
+pub fn xlsx_section(or: &mut Oracle, dist: &mut BTreeMap<String, u64>, fails: &mut Vec<Value>, nontrivial: &mut u64, tmp: &str, cases: &mut Vec<(String, String)>) -> Value {
     let base = match base_workbook() {
         Ok(b) => b,
         Err(e) => return json!({"status": "export failed", "error": e}),
     };
-    let payloads = ["1e999", "-1e999", "1E309", "1.8e308", "inf", "-inf", "INF", "Infinity", "infinity", "NaN", "nan", "-NaN", "1e308", "12345.5", ""];
+    let payloads = ["1e999", "-1e999", "1E309", "1.8e308", "inf", "-inf", "INF", "Infinity", "infinity", "NaN", "nan", "-NaN", "1e308", "12345.5", "", "abc", "1e-400", "-0", "17e307", "18e307", "+5", ".5", "5.", "1e", "0x10"];
     let targets = [("number_cell", "<v>12345</v>"), ("formula_cached_value", "<v>24690</v>")];
     let mut rows: Vec<Value> = vec![];
     let mut status = "ok".to_string();
@@ -74,17 +75,19 @@ pub fn xlsx_section(or: &mut Oracle, dist: &mut BTreeMap<String, u64>, fails: &m
                     Err(e) => return Err(format!("{e:?}")),
                 };
                 let loaded = scan(&m);
+                let stored = if tname == "number_cell" { crate::dump::cell_obs(&m, 0, 1, 1) } else { crate::dump::cell_obs(&m, 0, 1, 2) };
                 let shown = if loaded.is_empty() { String::new() } else { formatted(&m, loaded[0].row, loaded[0].col) };
                 m.evaluate();
                 let after = scan(&m);
-                Ok((loaded, after, shown))
+                Ok((loaded, after, shown, stored))
             }));
             let _ = std::fs::remove_file(&path);
             match r {
                 Err(_) => rows.push(json!({"target": tname, "v": p, "outcome": "panic"})),
                 Ok(Err(e)) => rows.push(json!({"target": tname, "v": p, "outcome": "rejected", "error": e.chars().take(120).collect::<String>()})),
-                Ok(Ok((loaded, after, shown))) => {
+                Ok(Ok((loaded, after, shown, stored))) => {
                     *nontrivial += 1;
+                    cases.push((format!("imp {} {}", if tname == "number_cell" { "num" } else { "fv" }, vh_common::wire(p)), stored));
                     rows.push(json!({"target": tname, "v": p, "outcome": "loaded", "nonfinite_after_load": loaded.len(), "nonfinite_after_evaluate": after.len()}));
                     if let Some(h0) = loaded.first().or(after.first()) {
                         fails.push(json!({"class": "xlsx_import_nonfinite",
